@@ -119,7 +119,7 @@ def attr_strategy():
     name = st.one_of(st.sampled_from(ATTR_NAMES), st.builds(lambda a, i: a + str(i), st.sampled_from(['id', 'data-x', 'title']), st.integers(0, 9)))
     dq = st.sampled_from(['', 'a b', 'x>y', "it's", 'a  b c', '</p>', '<b>', 'a/>', ' lead', 'tail ', '{x}', 'a=b', '<!-- c -->'])
     sq = st.sampled_from(['', 'a b', 'x>y', 'say "hi"', '<i>', '/>', 'a  b'])
-    unq = st.sampled_from(['a', 'foo', '12', 'a.b', '#x', 'a=b', 'x{y}', 'é'])
+    unq = st.sampled_from(['a', 'foo', '12', 'a.b', '#x', 'a=b', 'x{y}', 'é', '/x', 'a/b', 'http://x.y/z', 'text/css'])
     ex = st.sampled_from(['a', 'a>b', '{x}', '"}"', 'f(1)', "'}'", 'a < b', '() => <b/>'.replace('<b/>', 'b')])
     return st.one_of(
         st.tuples(ws, name, st.just('none'), st.none()),
@@ -157,12 +157,15 @@ def documents(xml=False, max_leaves=25):
     if True:
         body = st.sampled_from(['', 'var a = "<div>";', 'if (a</b>) {}', '<p>', 'x<y', '<!-- </x> -->', 'a{b:c}', '</scrip>', '</ script>',
                                  'ok = 1 <', 'var s = "<" + "</', '/* <b> </', '<', '</', '</scrip', 'a</sty'])
-        def special(nm, typ, a, b):
+        def special(nm, typ, a, b, form, last):
             at = [x for x in a if x[1] != 'type']
             if nm == 'script' and typ is not None:
-                at = [[' ', 'type', 'dq', typ]] + at
+                # the type in double quotes, single quotes or unquoted, first or last among the attributes
+                f = 'dq' if (form == 'raw' and not typ) else form
+                at = (at + [[' ', 'type', f, typ]]) if last else ([[' ', 'type', f, typ]] + at)
             return {'t': 'el', 'kind': 'special', 'name': nm, 'attrs': at, 'ws': '', 'body': b}
-        leaves.append(st.builds(special, st.sampled_from(['script', 'style']), st.sampled_from(SPECIAL_TYPES), attrs, body))
+        leaves.append(st.builds(special, st.sampled_from(['script', 'style']), st.sampled_from(SPECIAL_TYPES), attrs, body,
+                                st.sampled_from(['dq', 'dq', 'sq', 'sq', 'raw']), st.booleans()))
     leaves += [cdata, pi]
     leaf = st.one_of(*leaves)
 
